@@ -106,7 +106,7 @@ func cmdCheck(args []string) int {
 	var newViol []violRec
 	knownSeen := map[string]bool{}
 	validated := 0
-	replayDir := filepath.Join(verifDir(), "replays", id)
+	replayDir := filepath.Join(outDir("replays"), id)
 	os.RemoveAll(replayDir)
 	for _, g := range spec.Groups {
 		var files []string
@@ -306,6 +306,11 @@ func runNative(g *checkGroup, fn string, tapes [][]interp.TapeEntry) (string, er
 	}
 	for _, f := range g.Files {
 		repl[filepath.Join(repoDir, g.Pkg, "zz_verif_"+filepath.Base(f))] = filepath.Join(verifDir(), f)
+	}
+	if rp, rb, err := randOverlay(); err == nil {
+		rf := filepath.Join(wd, "pgregory_rand.go")
+		os.WriteFile(rf, rb, 0o644)
+		repl[rp] = rf
 	}
 	ob, _ := json.Marshal(map[string]any{"Replace": repl})
 	ov := filepath.Join(wd, "overlay.json")
@@ -524,7 +529,7 @@ func writeEvidence(id, tier string, seed int, spec *checkSpec, sums []*interp.Su
 		"wall_s":      wall.Seconds(),
 		"violations":  len(viol),
 	}
-	os.MkdirAll(filepath.Join(verifDir(), "evidence"), 0o755)
+	os.MkdirAll(outDir("evidence"), 0o755)
 	b, _ := json.MarshalIndent(ev, "", " ")
-	os.WriteFile(filepath.Join(verifDir(), "evidence", id+".json"), b, 0o644)
+	os.WriteFile(filepath.Join(outDir("evidence"), id+".json"), b, 0o644)
 }
